@@ -152,6 +152,7 @@ func (db *DB) newMem(n int) (mem *memDB, err error) {
 	mem.incref() // for self
 	mem.incref() // for caller
 	db.mem = mem
+	verifEvent(505, uint64(db.journalFd.Num), uint64(db.frozenJournalFd.Num))
 	// The seq only incremented by the writer. And whoever called newMem
 	// should hold write lock, so no need additional synchronization here.
 	db.frozenSeq = db.seq
@@ -170,6 +171,7 @@ func (db *DB) getMems() (e, f *memDB) {
 	if db.frozenMem != nil {
 		db.frozenMem.incref()
 	}
+	verifEvent(502, uint64(db.journalFd.Num), uint64(db.frozenJournalFd.Num))
 	return db.mem, db.frozenMem
 }
 
@@ -198,6 +200,7 @@ func (db *DB) getFrozenMem() *memDB {
 // Drop frozen memdb; assume that frozen memdb isn't nil.
 func (db *DB) dropFrozenMem() {
 	db.memMu.Lock()
+	verifEvent(506, uint64(db.frozenJournalFd.Num), 0)
 	if err := db.s.stor.Remove(db.frozenJournalFd); err != nil {
 		db.logf("journal@remove removing @%d %q", db.frozenJournalFd.Num, err)
 	} else {
